@@ -284,8 +284,12 @@ type Cluster struct {
 	// FailProb > 0 makes the underlying store of a node refuse an append now and then
 	// (nothing is stored): a follower's batch is then re-sent with a new split, a leader
 	// steps down, as raft does. The stores end up holding exactly what the leaders wrote.
-	FailProb    float64
-	NAppendFail int
+	// ForeignCPProb: chance that a leader append is preceded by an attempt to store a checkpoint
+	// command carrying foreign Extensions
+	ForeignCPProb                   float64
+	ForeignRefused, ForeignAccepted int
+	FailProb                        float64
+	NAppendFail                     int
 	// FailedOn[node index] is set when an append failed on that node (cleared by the driver)
 	FailedOn map[int]bool
 }
@@ -361,6 +365,29 @@ func (c *Cluster) LeaderAppend(k int, cpAt map[int]bool) error {
 	next := ld.Truth.Last + 1
 	if ld.Truth.Empty() {
 		next = 1
+	}
+	if c.ForeignCPProb > 0 && c.Rng.Float64() < c.ForeignCPProb {
+		// a checkpoint command that already carries somebody else's Extensions, after 0-2 plain
+		// entries in the same batch. The middleware refuses it (C18's statement); whatever it
+		// does, the stores must stay consistent with what the reports later say (C16)
+		var batch []*raft.Log
+		for i := 0; i < c.Rng.Intn(3); i++ {
+			c.seq++
+			batch = append(batch, &raft.Log{Index: next + uint64(i), Term: c.Term, Type: raft.LogCommand, Data: []byte(fmt.Sprintf("e%d-t%d-s%d", next+uint64(i), c.Term, c.seq))})
+		}
+		c.seq++
+		batch = append(batch, &raft.Log{Index: next + uint64(len(batch)), Term: c.Term, Type: raft.LogCommand, Data: []byte(fmt.Sprintf("C%d-foreign", c.seq)), Extensions: []byte("client-tag")})
+		if err := ld.Store(batch); err != nil {
+			for _, l := range batch {
+				delete(ld.Written, l.Index)
+			}
+			c.ForeignRefused++
+			c.log("leader %s: checkpoint with foreign Extensions at %d refused", ld.Name, batch[len(batch)-1].Index)
+		} else {
+			c.ForeignAccepted++
+			c.log("leader %s: checkpoint with foreign Extensions at %d ACCEPTED", ld.Name, batch[len(batch)-1].Index)
+			next = ld.Truth.Last + 1
+		}
 	}
 	var logs []*raft.Log
 	for i := 0; i < k; i++ {
